@@ -189,6 +189,8 @@ func sectionBC(r *hlib.Run, tc *toolchain, doB, doC bool) {
 			// subject, but never silently skipped
 			r.Count("C:pkg-rejected-by-wuffs-c")
 			r.Note(name + " rejected: " + firstN(bp.genErr, 400))
+			r.Fail("generated-package-rejected", "the working tree's wuffs-c rejects a generated package of coroutines (probes, templates and random F3s programs), so nothing of it can be run",
+				"--- error\n"+firstN(bp.genErr, 2000)+"\n--- package\n"+p.text)
 			continue
 		}
 		if len(bp.ccErr) > 0 {
@@ -387,6 +389,20 @@ func sectionB(r *hlib.Run, rng *hlib.Rand, p *wpkg, bp *builtPkg, pools map[stri
 						return ""
 					}})
 			}
+		}
+	}
+
+	for i := 0; i < 3; i++ {
+		data := rng.Bytes(1)
+		w := fmt.Sprintf("%02x", data[0])
+		for _, dst := range [][]int{nil, {0}, {1}, {0, 0, 1}, {1, 0, 1}, {2}, {0, 1, 0, 0, 1}} {
+			cases = append(cases, probeCase{fn: "p_write_dead", ops: "rd:8:8:b:0;wr:fst:0:0", accReg: 2, src: nil, dst: dst, data: data, key: "p_write_dead",
+				expect: func(rr runRes) string {
+					if rr.st != "ok" || rr.out != w {
+						return "want st=ok out=" + w
+					}
+					return ""
+				}})
 		}
 	}
 
